@@ -1,5 +1,16 @@
-from props.common import run_bounded
+from props.common import run_bounded, verify_keys, add_obs
+from pv import obs_effects as E
+
+
+KEYS = ['parso.python.parser.Parser._recovery_tokenize', 'parso.python.parser.Parser.__init__',
+        'parso.parser.BaseParser.__init__']
 
 
 def run(report):
+    verify_keys(report, KEYS)
+    add_obs(report, E.c07_obligations)
+    report.assume("M-2RUN: the self-composition step (both modes are in the same state up to the first non-shared call "
+                  "of error_recovery) is a paper argument over the discharged frame obligations",
+                  "effect analysis pv/effects.py: name-based call graph with arity filter; dynamic dispatch table in "
+                  "pv/obs_effects.py (A-DISPATCH)")
     run_bounded(report, ['stmt', 'blk'])
